@@ -71,6 +71,41 @@ CLAIMED = {
         "through parse_file and run_file, with direct checks of nesting, provenance, ascending order and execution order on the implementation.",
    ref="4/C14", technique="Coq proof (mutual induction over the splice relation, fuel monotonicity) + differential correspondence on real directory trees",
    note="Trusted: Coq kernel; glob::glob and the file system are oracles recorded by the harness for every reachable pattern/path; cyclic includes out of scope. Defect D15 (panic on unreadable match) fixed in /repo."),
+ "C03": dict(
+   text="Coq theorems C03_roundtrip (for every well-formed abstract script - every record kind, expectation form, sort mode, label, retry clause, guards, connections, "
+        "comments, multi-line texts - and every layout: blank strings incl. tabs/NBSP between, before and after header words, block endings, LF/CRLF per line, final "
+        "newline or not, parse(render(A,L)) = elab(A): all records, all fields, 1-based line numbers), C03_roundtrip_lines, C03_line_endings, about the line-at-a-time state-machine "
+        "model of parse_inner. Tied to the code by parsing generated (A,L) renderings and all fixtures with the real parser and comparing with the parser model AND with the generator's "
+        "independent elaboration.",
+   ref="4/C03", technique="Coq proof (per-item lemmas, induction over the script, lines/unlines) + three-way differential correspondence",
+   note="Trusted: Coq kernel; Regex::new validity oracle; durations are taken as words that humantime accepts (their value is proved for the compact rendering in C05). "
+        "The equivalence of the state machine with the nested-loop Rust parser is what the correspondence tests."),
+ "C06": dict(
+   text="Coq theorems C06_record_converges (for every record, answer, configuration, separator and regex oracle satisfying the escape law, outside the known classes D5/D12: the rewritten record, "
+        "as read back, passes the judge on the same answer and is a fixed point of the rewrite) and C06_untouched_passes, about the model of update_record_with_output / from_actual_error / regex::escape. "
+        "File level by correspondence: Runner::update_test_file on generated trees (mostly wrong expectations, includes, both separators, strict/default columns) with scripted databases, then run_file "
+        "against the same database, then a second update; bytes compared with the model (parser+apply_record+update_record+display+trimmer), L1 evaluated on the implementation. Six defects found and fixed (D3 D4 D6 D7 D17 D8).",
+   ref="4/C06", technique="Coq proof (record-level convergence) + differential correspondence with rerun and second update on real trees",
+   note="Trusted: Coq kernel; regex is_match oracle with the escape law as premise (tested); file-level convergence (same request sequence on rerun) is checked, not proved: partial. Known findings D5, D12 listed."),
+ "C07": dict(
+   text="Coq theorems C07_frame (only the expectation may change), C07_only_kind_change (query -> statement count N only for a statement completion), C07_skipped_unchanged, C07_failed_command_unchanged, "
+        "C07_pass_keeps (a passing record keeps its expectation as written; row-wise mode). Correspondence: records before/after Runner::update_test_file compared field by field; records that pass (Runner::run "
+        "on the original), are skipped, lie after halt, or are failing commands must keep their expectation; half of the cases are fixed points of a previous update so that many expectations are correct.",
+   ref="4/C07", technique="Coq proof (finite case analysis over update_record) + differential correspondence",
+   note="Trusted: Coq kernel; D5 (value-wise mode) is a listed known finding; file-level order/number of records checked on the implementation."),
+ "C08": dict(
+   text="Coq theorems C08_atomic (after EVERY prefix of the operation sequence - create temp, appends, truncations, rename - every file being rewritten holds its old or its complete new content), "
+        "C08_only_rename_touches_originals, C08_final (completion: new content everywhere, no temp file), C08_trim (any number of trailing newlines -> exactly one, all sizes), C08_trim_empty, C08_trim_never_panics, "
+        "C08_trim_ops, C08_trim_small_refuted (the pre-fix trimmer panics on `halt\\n`: defect D8, fixed), C08_trim_fix_conservative. Correspondence: every original file read back at every database request of an "
+        "uninterrupted update; a driver panic injected at every request k; tiny/empty files and up to 20 trailing blank lines; per-file bytes vs model; no *.temp; the CLI copy through --format in C05.",
+   ref="4/C08", technique="Coq proof (invariant over operation prefixes) + fault enumeration at every request",
+   note="Trusted: Coq kernel; POSIX rename atomicity; partial: durability/fsync ordering, non-POSIX file systems, concurrent writers; the syscall-level comparison (strace) is not built, the op model is tied through file contents only."),
+ "C13": dict(
+   text="Coq theorems C13_off_identity, C13_sql (for every well-formed template incl. nested defaults and the five escapes the model of subst 0.3.7 + substitution.rs expands as documented, failing on an undefined variable), "
+        "C13_lookup_order, C13_locals_shadow_environment, C13_value_verbatim, C13_cmd_identity, C13_trailing_dollar_refuted (known finding D9). Correspondence: generated templates and malformed texts, variables local/environment/both, "
+        "substitution toggled inside scripts, SQL and commands, compared with the model and the generator's reference expansion; test-directory identity/uniqueness/removal observed on live runners incl. the library's run_parallel.",
+   ref="4/C13", technique="Coq proof (template parser round trip) + differential correspondence",
+   note="Trusted: Coq kernel; process environment as oracle table; partial: test-directory uniqueness/removal is tempfile/OS behaviour (observed, not proved); __NOW__ and the directory path canonicalised."),
 }
 
 PENDING = "check not built yet in this session (machinery under construction); no claim is made"
